@@ -76,6 +76,7 @@ for n, tier in [(x, 'quick') for x in QUICK] + [(x, 'thorough') for x in THOROUG
     add('ctor', 'h_ctor', n, tier, unwind=n + 1)
     add('solo_push_w', 'h_solo_push_weak', n, tier, mode='SOLO', defs={'XV_SOLO': 1}, unwindset=['vbq_do_try_push_w.0:2'], unwind_obligation='vbq.weak.terminates')
     add('solo_pop_w', 'h_solo_pop_weak', n, tier, mode='SOLO', defs={'XV_SOLO': 1}, unwindset=['vbq_do_try_pop_w.0:2'], unwind_obligation='vbq.weak.terminates')
+RUNS.append(dict(id='dispatch', entry='h_dispatch', defs={'N': 2}, cls='unbounded', tiers=['quick', 'thorough'], note='static dispatch facts extracted from the header'))
 for n in QUICK:
     if n == 8: continue
     for m in (0, 1):
@@ -117,7 +118,7 @@ for t in ('push_s', 'push_w', 'push_d'): CANARIES += [t + x for x in ('.full', '
 for t in ('pop_s', 'pop_w', 'pop_d'): CANARIES += [t + x for x in ('.empty', '.ok', '.ok_wrap', '.ok_from_full')]
 CANARIES += ['push_s.full_wrapped', 'push_d.full_wrapped', 'pop_s.empty_at_max', 'pop_d.empty_at_max']
 for t in ('push_s', 'push_w', 'pop_s', 'pop_w'): CANARIES += [t + '.int_ok', t + '.int_fail']
-CANARIES += ['lambdas.default', 'ctor.done', 'dtor.destroyed', 'dtor.skipped', 'dtor.full', 'dtor.empty', 'dtor.wrapped', 'solo_push_w.ok', 'solo_push_w.fail', 'solo_pop_w.ok', 'solo_pop_w.fail']
+CANARIES += ['dispatch.reached', 'lambdas.default', 'ctor.done', 'dtor.destroyed', 'dtor.skipped', 'dtor.full', 'dtor.empty', 'dtor.wrapped', 'solo_push_w.ok', 'solo_push_w.fail', 'solo_pop_w.ok', 'solo_pop_w.fail']
 UNIT = dict(
   title='vyukov_bounded_queue: ring of N cells with per-cell sequence numbers (C05 vyukov half, C07 ownership)',
   properties=['C05', 'C07'],
@@ -131,7 +132,13 @@ UNIT = dict(
                '(their guarantee is vbq.inv.preserved + vbq.fifo in SEQ); cell sequences are arbitrary',
                'the lifetime/ownership obligations are sequential (SEQ); under interference they rest on the commit obligations plus the composition lemma of DESIGN.md',
                'SOLO: the mid-operation states are Inv_V with any subset of claimed-but-unpublished pushes (seq = p) and claimed-but-unreleased pops (seq = p-N+1)'],
-  consts=[dict(name='XV_DEFAULT_TO_WEAK', file=F, regex=r'parameter::value_param_t<bool, policy::default_to_weak, (\w+), Policies\.\.\.>::value', subst=[('false', '0'), ('true', '1')])],
+  consts=[
+          # dispatch of the std::optional overloads (their lambdas are not lowered): which instantiation of do_try_pop they forward to.
+          # 2 = default_to_weak, 1 = do_try_pop<true> (weak, lock-free), 0 = do_try_pop<false> (strong)
+          dict(name='XV_DISPATCH_POP', file=F, regex=r'std::optional<T> pop\(\)\s*\{\s*return do_try_pop<(\w+)>', subst=[('^default_to_weak$', '2'), ('^true$', '1'), ('^false$', '0')]),
+          dict(name='XV_DISPATCH_POP_STRONG', file=F, regex=r'std::optional<T> pop_strong\(\)\s*\{\s*return do_try_pop<(\w+)>', subst=[('^default_to_weak$', '2'), ('^true$', '1'), ('^false$', '0')]),
+          dict(name='XV_DISPATCH_POP_WEAK', file=F, regex=r'std::optional<T> pop_weak\(\)\s*\{\s*return do_try_pop<(\w+)>', subst=[('^default_to_weak$', '2'), ('^true$', '1'), ('^false$', '0')]),
+          dict(name='XV_DEFAULT_TO_WEAK', file=F, regex=r'parameter::value_param_t<bool, policy::default_to_weak, (\w+), Policies\.\.\.>::value', subst=[('false', '0'), ('true', '1')])],
   sources=[
     dict(id='assign_value', file=F, sig=r'void assign_value\(storage_t& v, T&& source\)',
          c_sig='static void vbq_assign_value(struct vbq* self, storage_t* v_p, value* source_p)',
